@@ -40,11 +40,11 @@ def checkFinder (rtl : Bool) (n start : Nat) (finder : Nat → Bool × Nat) (att
     if rtl then
       decide (q ≤ pos) &&
       (if f then (List.range (n + 1)).all fun p => !(decide (q < p) && decide (p ≤ pos)) || (attempt p).isNone
-       else (List.range (n + 1)).all fun p => !(decide (p ≤ pos)) || (attempt p).isNone)
+       else (List.range (n + 1)).all fun p => !(decide (q ≤ p) && decide (p ≤ pos)) || (attempt p).isNone)
     else
       decide (pos ≤ q) && decide (q ≤ n) &&
       (if f then (List.range (n + 1)).all fun p => !(decide (pos ≤ p) && decide (p < q)) || (attempt p).isNone
-       else (List.range (n + 1)).all fun p => !(decide (pos ≤ p)) || (attempt p).isNone)
+       else (List.range (n + 1)).all fun p => !(decide (pos ≤ p) && decide (p ≤ q)) || (attempt p).isNone)
 
 def checkAfter (rtl : Bool) (n start : Nat) (after : Nat → Nat) (attempt : Nat → Option (Nat × Nat)) : Bool :=
   (scanOrder rtl n start).all fun q =>
